@@ -165,6 +165,18 @@ def run(rep, facts, tier):
     og = Origins(hbk, summaries=True)
     alls = [t for bb, t in hbk.calls() if callee_res(t).endswith('::all') and has_field(og.of_operand(t['args'][0], bb, 'term'), 'readers')]
     rep.check(bool(alls), 'R02.3', 'handle_heartbeat_tick/all-readers', 'suppressed only if ALL readers have everything', 'heartbeat suppression is not a conjunction over all readers', hbk.where())
+    # ... over the readers that acknowledge at all (raised F28, a known finding): a best-effort reader proxy never advances all_acked_before, so a conjunction that includes it is
+    # never true again once something was written
+    acking = False
+    for bb, t in hbk.calls():
+        if callee_res(t).endswith('::all') and has_field(og.of_operand(t['args'][0], bb, 'term'), 'readers'):
+            chain = og.of_operand(t['args'][0], bb, 'term')
+            cls = [c for c in fx.closures_of(hbk) if c.key in str(chain) or c.key in str(og.of_operand(t['args'][1], bb, 'term'))]
+            if any(any(callee_res(ct).endswith(('is_reliable', 'reliability')) for _, ct in c.calls()) for c in cls):
+                acking = True
+    rep.check(acking, 'R02.3', 'handle_heartbeat_tick/only-acknowledging-readers', 'the conjunction ranges over (or exempts) reader proxies that never acknowledge',
+              'the "everybody has everything" test of handle_heartbeat_tick includes best-effort reader proxies, whose all_acked_before never moves: with one best-effort reader matched '
+              'the periodic HEARTBEAT - and every reliable reader\'s ACKNACK in answer to it - goes on for ever although all reliable readers have acknowledged everything', hbk.where())
 
     # ------------------------------------------------------------ R02.4
     rw = fx.find(W + 'handle_repair_data_send_worker')
